@@ -139,6 +139,18 @@ def hyp_search(strategy, execute, stats, seed, max_examples, known=(),
                           "message": v["message"], "case": case})
             excluded.add(v["signature"])
             continue
+        except BaseException as e:
+            # Hypothesis reports an example that failed once and passed when
+            # replayed as flaky; for wall-clock (live) shards the recorded
+            # observation stands and is reported as found
+            if type(e).__name__ not in ('FlakyFailure', 'Flaky') or \
+                    holder["last"] is None:
+                raise
+            case, v = holder["last"]
+            found.append({"signature": v["signature"],
+                          "message": v["message"], "case": case})
+            excluded.add(v["signature"])
+            continue
         break
     return found
 
